@@ -56,6 +56,8 @@ func runC11(c *Ctx) {
 	ruleHealthNonBlocking(c, p, "C11.health-nonblocking")
 	ruleClockKind(c, p, "C11.clock-kind")
 	rulePoolCtxDetached(c, p, "C11.pool-ctx")
+	ruleHandleSlabFresh(c, p, "C11.handle-slab")
+	ruleNewPoolCloses(c, p, "C11.newpool-closes")
 	ruleHijackCloses(c, p, "C11.hijack-closes")
 	ruleCloseWaits(c, p, "C11.close-waits")
 	if roles := resolveDo(c, p); roles != nil {
